@@ -273,6 +273,15 @@ def same_parsed(model, real):
     return model['text'] == real['text'] and model['meta'] == real['meta'] and model['visual'] == real['visual']
 
 
+import re as _re
+_NEGZERO = _re.compile(r'-(0(?:\.0*)?)(?![0-9.])')
+
+
+def nz(text):
+    """-0.000 and 0.000 are the same number (IEEE negative zero is not a rational): compare texts modulo that."""
+    return _NEGZERO.sub(r'\1', text) if isinstance(text, str) else text
+
+
 def qtable_for(strings):
     import astropy.units as u
     out = {}
@@ -1001,10 +1010,10 @@ class Check(PropertyCheck):
             ser = model['ser']
             if 'exc' in real:
                 return ser.get('err') == real['exc']
-            if ser.get('ok') != real['text']:
+            if nz(ser.get('ok')) != nz(real['text']):
                 return False
             tw = model['ser2']
-            if (tw.get('ok') if 'ok' in tw else 'EXC ' + tw['err']) != real['text_twice']:
+            if nz(tw.get('ok') if 'ok' in tw else 'EXC ' + tw['err']) != nz(real['text_twice']):
                 return False
             mp = model['parse']
             if 'parse_exc' in real:
@@ -1017,7 +1026,7 @@ class Check(PropertyCheck):
             if 'fp_exc' in real:
                 return False
             fs = model.get('fp_ser')
-            if not isinstance(fs, dict) or fs.get('ok') != real['text2']:
+            if not isinstance(fs, dict) or nz(fs.get('ok')) != nz(real['text2']):
                 return False
             fpp = model.get('fp_parse') or {}
             if 'ok' not in fpp or len(fpp['ok']) != len(real['parsed2']):
@@ -1262,6 +1271,8 @@ def g_body(rng, pixel):
     if n == 'annulus':
         r1 = g_len(rng, pixel)
         r2 = g_len(rng, pixel, lo=float(dec_val(r1['d'])), unit=r1['u'])
+        while dec_val(r2['d']) <= dec_val(r1['d']):
+            r2 = {'d': [False, str(int(r2['d'][1]) * 2 + 1), r2['d'][2]], 'u': r2['u']}
         return {'n': n, 'c': g_pt(rng, pixel), 'r1': r1, 'r2': r2}
     if n == 'ellipse':
         return {'n': n, 'c': g_pt(rng, pixel), 'a': g_len(rng, pixel), 'b': g_len(rng, pixel), 'ang': g_ang(rng)}
@@ -1276,8 +1287,14 @@ def g_body(rng, pixel):
                 c2[i] = (g_lon if i == 0 else g_lat)(rng, pixel)
             else:
                 c2[i] = dict(c1[i])
-            if c1[i] == c2[i]:
-                c2[i] = {'t': 'dec', 'd': [False, '5', 1], 'u': c1[i].get('u', 'deg')} if c1[i]['t'] == 'dec' else c2[i]
+            for _ in range(50):        # the two corners must differ on each axis
+                if ref_coord_deg(c1[i]) != ref_coord_deg(c2[i]):
+                    break
+                c2[i] = dict(c2[i])
+                if c2[i]['t'] == 'dec':
+                    c2[i]['d'] = g_dec(rng, 1, 80, 3)
+                else:
+                    c2[i]['b'] = (c2[i]['b'] + 7) % 60
         return {'n': n, 'c1': c1, 'c2': c2}
     if n == 'centerbox':
         return {'n': n, 'c': g_pt(rng, pixel), 'w': g_len(rng, pixel), 'h': g_len(rng, pixel)}
